@@ -7,6 +7,7 @@ import Rbdl.BalDriver
 import Rbdl.IterDriver
 import Rbdl.LuaDriver
 import Rbdl.EnbDriver
+import Rbdl.CfDriver
 /-
   Line-protocol driver of the executable model (`rbdl_model`): reads the same case file as the
   C++ harness (`harness/driver.cc`) from stdin, executes every operation over exact rationals
@@ -377,6 +378,9 @@ def doCsCall (d : DS) (name : String) (t : Toks) : Option (DS × String) :=
     let r := if d.lastFDC.headD "" ≠ "FDC" then r else
       also (also r d "FDC.agree.lhs" (" ".intercalate d.impl)) d "FDC.agree.rhs" (" ".intercalate d.lastFDC.tail)
     some ({ r.1 with lastFDC := "FDC" :: d.impl }, r.2)
+  | "CF" | "CI" =>
+    let (w, ls) := CfDriver.run parseRat m d.w d.st d.qd d.cset d.impl d.lastFDC name t.l
+    some (ls.tail.foldl (fun r p => also r d p.1 p.2) (out { d with w := w } name (ls.headD ("", "")).2))
   | "IMP" =>
     let r := out d name (" ".intercalate d.impl)
     if d.impl.isEmpty then some r else
